@@ -214,6 +214,198 @@ def gen_problem_edit(pb: ast.AST) -> str:
     return "\n".join(out) + "\n"
 
 
+# ======================================================================================================
+#  `_try_get_single_vector_source` (problem.py): the body of its `while stack:` loop, per node class
+# ======================================================================================================
+
+def gen_svs(pb: ast.AST) -> str:
+    """-> `svsVisitG found cur : Option (Option VVar × List Expr)`: `none` = `return None`, `some (found', pushed)` = the
+    iteration ends with `found_source = found'` after pushing `pushed` (in push order); plus the frame as text"""
+    import py2lean
+    CTORS, NON_SCALAR, classes_of = py2lean.CTORS, py2lean.NON_SCALAR, py2lean.classes_of
+    where = "_try_get_single_vector_source"
+    fn = next((n for n in ast.walk(pb) if isinstance(n, ast.FunctionDef) and n.name == where), None)
+    if fn is None:
+        raise TranslateError(f"{where} not found")
+    body = [st for st in _body(fn) if not isinstance(st, (ast.Import, ast.ImportFrom))]
+    body = [st for st in body]
+    loop = next((st for st in body if isinstance(st, ast.While)), None)
+    if loop is None or _u(loop.test) != "stack" or loop.orelse:
+        raise TranslateError(f"{where}: no `while stack:` loop")
+    frame = [" ".join(_u(st).split()) for st in body if st is not loop]
+    lb = [st for st in loop.body if not (isinstance(st, ast.Expr) and isinstance(st.value, ast.Constant))]
+    if not lb or _u(lb[0]) != "current = stack.pop()":
+        raise TranslateError(f"{where}: the loop does not start with `current = stack.pop()`")
+    lb = lb[1:]
+    known = {k for k, _, _ in CTORS} | set(NON_SCALAR)
+    counter = [0]
+
+    def new(b):
+        counter[0] += 1
+        return f"{b}{counter[0]}"
+
+    def ends(stmts):
+        if not stmts:
+            return False
+        s = stmts[-1]
+        if isinstance(s, (ast.Continue, ast.Return)):
+            return True
+        if isinstance(s, ast.If) and s.orelse:
+            return ends(s.body) and ends(s.orelse)
+        return False
+
+    def static(test, env):
+        """value of a condition over bool locals that are known after the case splits, else None"""
+        if isinstance(test, ast.Name) and test.id in env and env[test.id][1] == "KnownBool":
+            return env[test.id][0]
+        if isinstance(test, ast.BoolOp):
+            vals = [static(v, env) for v in test.values]
+            if any(v is None for v in vals):
+                return None
+            return all(vals) if isinstance(test.op, ast.And) else any(vals)
+        if isinstance(test, ast.UnaryOp) and isinstance(test.op, ast.Not):
+            v = static(test.operand, env)
+            return None if v is None else (not v)
+        return None
+
+    def is_vecvar(node):
+        """`isinstance(X, VectorVariable)` -> X"""
+        if isinstance(node, ast.Call) and _u(node.func) == "isinstance" and len(node.args) == 2 and _u(node.args[1]) == "VectorVariable":
+            return _u(node.args[0])
+        return None
+
+    def lookup(key, env):
+        if key not in env:
+            raise TranslateError(f"{where}: unbound {key!r}")
+        return env[key]
+
+    def blk(stmts, env, found, pushed):
+        # found: ("none",) | ("some", term) | ("var", term of type Option VVar)
+        def result():
+            ft = {"none": "none", "some": f"some {found[1]}" if found[0] == "some" else "", "var": found[1] if found[0] == "var" else ""}[found[0]]
+            return f"some ({ft}, [{', '.join(pushed)}])"
+        if not stmts:
+            raise TranslateError(f"{where}: a path falls off the end of the loop body")
+        st, rest = stmts[0], stmts[1:]
+        if isinstance(st, ast.Continue):
+            return result()
+        if isinstance(st, ast.Return):
+            if _u(st) != "return None":
+                raise TranslateError(f"{where}: {_u(st)!r} inside the loop")
+            return "none"
+        if isinstance(st, ast.Assign) and len(st.targets) == 1 and isinstance(st.targets[0], ast.Name):
+            nm, val = st.targets[0].id, st.value
+            x = is_vecvar(val)
+            if x is not None:
+                t, ty = lookup(x, env)
+                if ty == "VVar":
+                    e2 = dict(env); e2[nm] = (True, "KnownBool")
+                    return blk(rest, e2, found, pushed)
+                if ty == "Vec":
+                    v = new("w")
+                    e_yes = dict(env); e_yes[nm] = (True, "KnownBool"); e_yes[x] = (v, "VVar")
+                    e_no = dict(env); e_no[nm] = (False, "KnownBool"); e_no[x] = (t, "VecNotVars")
+                    return (f"(match {t} with | .vars {v} => {blk(rest, e_yes, found, pushed)} "
+                            f"| .exprs _ => {blk(rest, e_no, found, pushed)})")
+                raise TranslateError(f"{where}: isinstance(…, VectorVariable) on a {ty}")
+            if nm == "found_source":
+                t, ty = lookup(_u(val), env)
+                if ty != "VVar":
+                    raise TranslateError(f"{where}: found_source = a {ty}")
+                return blk(rest, env, ("some", t), pushed)
+            u = _u(val)
+            if u in env:
+                e2 = dict(env); e2[nm] = env[u]
+                return blk(rest, e2, found, pushed)
+            raise TranslateError(f"{where}: assignment {_u(st)[:70]!r}")
+        if isinstance(st, ast.Expr) and isinstance(st.value, ast.Call):
+            f, args = _u(st.value.func), st.value.args
+            if f == "stack.append" and len(args) == 1:
+                t, ty = lookup(_u(args[0]), env)
+                if ty != "Expr":
+                    raise TranslateError(f"{where}: pushes a {ty}")
+                return blk(rest, env, found, pushed + [t])
+            if f == "stack.extend" and len(args) == 1 and _u(args[0]).endswith("._expressions"):
+                t, ty = lookup(_u(args[0])[:-len("._expressions")], env)
+                if ty != "ExprList" or pushed:
+                    raise TranslateError(f"{where}: stack.extend of a {ty} / after pushes")
+                ft = {"none": "none", "some": f"some {found[1]}" if found[0] == "some" else "", "var": found[1] if found[0] == "var" else ""}[found[0]]
+                if not (rest and isinstance(rest[0], ast.Continue)):
+                    raise TranslateError(f"{where}: statements after stack.extend")
+                return f"some ({ft}, {t}.toList)"
+            raise TranslateError(f"{where}: call {_u(st)[:70]!r}")
+        if isinstance(st, ast.If):
+            body_ = st.body if ends(st.body) else st.body + rest
+            orelse = st.orelse if (st.orelse and ends(st.orelse)) else (st.orelse or []) + rest
+            sv = static(st.test, env)
+            if sv is not None:
+                return blk(body_ if sv else orelse, env, found, pushed)
+            x = is_vecvar(st.test)
+            if x is not None:
+                t, ty = lookup(x, env)
+                if ty == "VVar":
+                    return blk(body_, env, found, pushed)
+                if ty == "Vec":
+                    v = new("w")
+                    e_yes = dict(env); e_yes[x] = (v, "VVar")
+                    return f"(match {t} with | .vars {v} => {blk(body_, e_yes, found, pushed)} | .exprs _ => {blk(orelse, env, found, pushed)})"
+                raise TranslateError(f"{where}: isinstance(…, VectorVariable) on a {ty}")
+            u = _u(st.test)
+            if u == "found_source is None":
+                if found[0] == "none":
+                    return blk(body_, env, found, pushed)
+                if found[0] == "some":
+                    return blk(orelse, env, found, pushed)
+                f = new("f")
+                return (f"(match {found[1]} with | none => {blk(body_, env, ('none',), pushed)} "
+                        f"| some {f} => {blk(orelse, env, ('some', f), pushed)})")
+            if isinstance(st.test, ast.Compare) and len(st.test.ops) == 1 and isinstance(st.test.ops[0], (ast.Is, ast.IsNot)):
+                l, r = _u(st.test.left), _u(st.test.comparators[0])
+                neg = isinstance(st.test.ops[0], ast.IsNot)
+
+                def vv(k):
+                    if k == "found_source":
+                        if found[0] != "some":
+                            raise TranslateError(f"{where}: identity test on found_source while it may be None")
+                        return found[1]
+                    t, ty = lookup(k, env)
+                    if ty != "VVar":
+                        raise TranslateError(f"{where}: identity test on a {ty}")
+                    return t
+                c = f"({vv(l)}.oid == {vv(r)}.oid)"
+                yes, no = (orelse, body_) if neg else (body_, orelse)
+                return f"(if {c} then {blk(yes, env, found, pushed)} else {blk(no, env, found, pushed)})"
+            raise TranslateError(f"{where}: test {u!r}")
+        raise TranslateError(f"{where}: statement {_u(st)[:70]!r}")
+
+    out = ["/-- the statements around the loop of `_try_get_single_vector_source` -/",
+           "def svsFrameG : List String := [" + ", ".join(json.dumps(t) for t in frame) + "]", "",
+           "/-- one iteration of `while stack:` after `current = stack.pop()` -/",
+           "def svsVisitG (found : Option VVar) : Expr → Option (Option VVar × List Expr)"]
+    for cls, ctor, fields in CTORS:
+        env = {}
+        for attr, b, ty in fields:
+            env[f"current.{attr}" if attr else "current"] = (b, ty)
+        stmts = []
+        for s in lb:
+            if isinstance(s, ast.If) and not s.orelse:
+                cl = classes_of(s.test, "current")
+                if cl is not None:
+                    for c in cl:
+                        if c not in known and c != "VectorVariable":
+                            raise TranslateError(f"{where}: class unknown to the model: {c}")
+                    if cls in cl:
+                        stmts += list(s.body)
+                        if ends(s.body):
+                            break
+                    continue
+            stmts.append(s)
+        binders = " ".join(b for _, b, _ in fields)
+        out.append(f"  | .{ctor} {binders} => {blk(stmts, env, ('var', 'found'), [])}")
+    return "\n".join(out) + "\n"
+
+
 if __name__ == "__main__":
     import sys
     print(gen_problem_edit(ast.parse(open(sys.argv[1]).read())))
+    print(gen_svs(ast.parse(open(sys.argv[1]).read())))
